@@ -1457,6 +1457,8 @@ class ProgramData:
                     cls._options[ProgramOption[p_option_name]] = type(ProgramOption[p_option_name].default)(option_value)
                 except ValueError as e:
                     raise RuntimeError("Invalid value for option " + option_name) from e
+                if ProgramOption[p_option_name] is ProgramOption.COLLAPSED_RANGE_LENGTH and cls._options[ProgramOption.COLLAPSED_RANGE_LENGTH] < 1:
+                    raise RuntimeError("Invalid value for option " + option_name + " (must be at least 1)")
 
         if input_filename is None:
             raise RuntimeError("No input file provided!")
